@@ -111,7 +111,7 @@ class C05A(DevProp):
     imports = "Model.AnalogF Model.AnalogSpec Run.AnalogRun"
     case_type = "acase"
     fail_term = "c05a_failures k"
-    mis_term = "afull_mismatch k"      # bytes, signals and State() of every step of the full machine (float layer + state machine)
+    mis_term = "afull_mismatch_perm k"      # multiset of bytes, signals and State() of every step of the full machine (float layer + state machine)
     nontrivial_term = None
     monitor_name = C05.monitor_name
     correspondence_name = "C05 view (per message: well-formed or not), axis events"
